@@ -7,7 +7,7 @@ CONSTANTS
   Heights = {1}
   Rounds = {0, 1}
   Stages = {1, 3}
-  Facts = {"A", "B"}
+  Facts = {"A"}
   ExSets = {{}, {"n2"}}
   AllowSC = FALSE
   MaxId = 3
